@@ -4,3 +4,4 @@ import MoreExec.Props.C15
 #print axioms MoreExec.Zipper.C15_first_failure_cancelled
 #print axioms MoreExec.Zipper.C15_success_step
 #print axioms MoreExec.Zipper.C15_traverse_calls
+#print axioms MoreExec.Zipper.C15_source_facts
